@@ -1322,20 +1322,36 @@ def eval_premade_dtype(d):
 
 
 def _is_premade_dtype(case):
-  return case.desc.get("kind") == "premade_dtype"
+  """D23, identified by its witness call and its symptom: the fixed premade_dtype case (CalibratedLattice built with
+  dtype=tf.float64, rebuilt by from_config(get_config())), the original's constrained layers are all float64 and the
+  rebuilt ones all float32 (any other dtype pattern, or any other clause of that case, is reported)."""
+  if case.desc.get("kind") != "premade_dtype":
+    return False
+  info = case.info if isinstance(case.info, dict) else {}
+  return ([list(x) for x in info.get("dtypes", [])] == [["float64"], ["float32"]] and
+          (case.pred_fail or "").startswith("premade.CalibratedLattice(model_config, dtype=tf.float64): layers of the "
+                                            "model rebuilt by from_config(get_config()) have dtype ['float32'] "
+                                            "instead of ['float64']"))
+
+
+_D31_LEGS = ("from_config(get_config()) raised ValueError: Unknown object: 'Functional'.",
+             "rebuild from json.loads(json.dumps(get_config())) raised ValueError: Unknown object: 'Functional'.")
 
 
 def _is_aggregation_plain_model(case):
-  """D31: Aggregation whose inner model is a plain functional / Sequential keras model cannot be
-  rebuilt (from_config resolves the inner model through custom_objects only)."""
+  """D31: Aggregation whose inner model is a plain FUNCTIONAL keras model (build_small_model; the desc argument is
+  {'__model__': ...}) cannot be rebuilt: from_config resolves the inner model through custom_objects only. Every
+  recorded failure must be one of the two rebuild legs (direct / after the JSON round trip) raising exactly
+  ValueError "Unknown object: 'Functional'"; a rebuilt object that differs, another exception, or another unknown
+  name is reported."""
   d = case.desc
   if d.get("kind") != "obj" or d.get("cls") != "aggregation_layer.Aggregation":
     return False
-  if "__model__" not in (d.get("kwargs", {}).get("model") or {}):
+  model = d.get("kwargs", {}).get("model")
+  if not (isinstance(model, dict) and "__model__" in model):
     return False
-  fails = case.info.get("failures", [])
-  return bool(fails) and all("Unknown object: 'Functional'" in f or "Unknown object: 'Sequential'" in f
-                             for f in fails)
+  fails = case.info.get("failures", []) if isinstance(case.info, dict) else []
+  return bool(fails) and len(fails) <= 2 and all(any(f.startswith(leg) for leg in _D31_LEGS) for f in fails)
 
 
 KNOWN_CLASSES = {"premade_dtype_dropped": _is_premade_dtype,
